@@ -163,6 +163,7 @@ def worker_main(prop_id, tier, w, nworkers, seed, outfile):
             n = max(1, n // nworkers)
             state = {"failing": None, "calls_after_fail": 0}
             shrink_cap = 150 if tier == "quick" else 600
+            shrink_s = 45 if tier == "quick" else 240
 
             @hypothesis.seed(seed * 1000 + w)
             @settings(max_examples=n, database=None, deadline=None, derandomize=False,
@@ -173,7 +174,8 @@ def worker_main(prop_id, tier, w, nworkers, seed, outfile):
             def prop(case):
                 if state["failing"] is not None:
                     state["calls_after_fail"] += 1
-                    if state["calls_after_fail"] > shrink_cap and case != state["failing"][0]:
+                    over = state["calls_after_fail"] > shrink_cap or time.time() - state["failed_at"] > shrink_s
+                    if over and case != state["failing"][0]:
                         return
                 elif budget_s and time.time() - t0 > budget_s:
                     return
@@ -192,6 +194,8 @@ def worker_main(prop_id, tier, w, nworkers, seed, outfile):
                     account(case, oc)
                 fresh = judge(case, oc)
                 if fresh:
+                    if state["failing"] is None:
+                        state["failed_at"] = time.time()
                     state["failing"] = (case, fresh)
                     raise AssertionError(fresh[0][0])
 
